@@ -80,7 +80,7 @@ struct Step { qs: Vec<MQ>, is_tx: bool, abort: Option<usize> }
 fn gen_step(rng: &mut Rng, profile: &Profile, keys_pool: &mut Vec<DbValue>, view: &View, allow_tx: bool) -> Option<Step> {
     let is_tx = allow_tx && rng.chance(1, 4);
     let mut qs = vec![];
-    let mut g = Gen { rng, p: profile, keys_pool: std::mem::take(keys_pool), allow_dup: false };
+    let mut g = Gen { rng, p: profile, keys_pool: std::mem::take(keys_pool), allow_dup: false, in_tx: is_tx };
     let want = if is_tx { g.rng.range(2, 3) } else { 1 };
     let mut tries = 0;
     while (qs.len() as u64) < want && tries < 30 {
